@@ -29,6 +29,8 @@ type lockCfg struct {
 	Backend    string `json:"backend"` // etcd | redis
 	Contenders int    `json:"contenders"`
 	TTLSec     int    `json:"ttl_sec"`
+	TTLMs      int    `json:"ttl_ms,omitempty"` // fraction of a second on top
+	Shared     bool   `json:"shared,omitempty"` // all contenders are goroutines of one process (one store object)
 }
 
 type lockOp struct {
@@ -82,6 +84,12 @@ func (lockH) Generate(property string, seed uint64, tier string) *Case {
 		ops = append(ops, mustJSON(op))
 	}
 	plan := simrt.Plan{Policy: []string{"random", "sticky", "pct", "fifo"}[g.IntN(4)], CrashAt: -1}
+	if property == "C18" {
+		cfg.Shared = g.IntN(2) == 0
+		if g.IntN(2) == 0 {
+			cfg.TTLMs = 500
+		}
+	}
 	return &Case{Plan: plan, Cfg: mustJSON(cfg), Ops: ops}
 }
 
@@ -119,7 +127,11 @@ type etcdLockBackend struct {
 func init() {
 	lockBackends["etcd"] = func(sim *simrt.Sim, cfg lockCfg) lockBackend {
 		b := &etcdLockBackend{sim: sim, srv: simetcd.NewServer(sim, "etcd")}
-		for i := 0; i < cfg.Contenders; i++ {
+		n := cfg.Contenders
+		if cfg.Shared {
+			n = 1
+		}
+		for i := 0; i < n; i++ {
 			h := b.srv.NewClient(sim.NewInstance(), fmt.Sprintf("etcd-c%d", i))
 			b.handles = append(b.handles, h)
 			b.kvs = append(b.kvs, meta.NewETCDWithClient(h.Client, coretypes.EtcdConfig{LockPrefix: "__lock__/eru"}))
@@ -129,7 +141,7 @@ func init() {
 }
 
 func (b *etcdLockBackend) newLock(i int, key string, ttl time.Duration) (lock.DistributedLock, error) {
-	return b.kvs[i].CreateLock(key, ttl)
+	return b.kvs[i%len(b.kvs)].CreateLock(key, ttl)
 }
 
 func (b *etcdLockBackend) holderLease(key string) int64 {
@@ -189,7 +201,7 @@ func (lockH) Execute(c *Case, res *Result) {
 		return
 	}
 	be := mk(sim, cfg)
-	ttl := time.Duration(cfg.TTLSec) * time.Second
+	ttl := time.Duration(cfg.TTLSec)*time.Second + time.Duration(cfg.TTLMs)*time.Millisecond
 	keepalive := ttl / 3
 	const key = "thekey"
 	var ops []lockOp
@@ -255,7 +267,12 @@ func (lockH) Execute(c *Case, res *Result) {
 					if err != nil {
 						res.Probes["lock_failed"]++
 						waited := time.Since(t0)
-						if waited+time.Second < ttl && !strings.Contains(err.Error(), "injected") {
+						// (redislock gives up when its next retry, 500 ms away, would come too late)
+						slack := time.Second
+						if be.keepsAlive() {
+							slack = 100 * time.Millisecond
+						}
+						if waited+slack < ttl && !strings.Contains(err.Error(), "injected") {
 							viol("C18", "lock-gave-up-early", cfg.Backend, fmt.Sprintf("op#%d: lock by contender %d failed after only %v (wait timeout %v): %v", i, who, waited, ttl, err))
 						}
 						_ = l.Unlock(ctx)
